@@ -135,10 +135,13 @@ class CacheWorld:
                     break
                 time.sleep(0.002)
 
-    def _bring_up(self, sq, ready_s=120):
-        """Kick the fresh process until it listens and has finished rebuilding.  None = up; str = it died."""
+    def _bring_up(self, sq, ready_s=None):
+        """Kick the fresh process until it listens and has finished rebuilding.  None = up; str = it died or did
+        not become ready within 60 s of virtual time (squid's fault).  Too slow in real time = HarnessError."""
         self.starts += 1
+        ready_s = ready_s or max(120.0, 6 * ls.WATCHDOG_S)
         deadline = time.time() + ready_s
+        advances = 0
         while True:
             if not sq.alive():
                 sq._pump(0.05)
@@ -148,11 +151,23 @@ class CacheWorld:
                 log = sq.cache_log()
                 if 'Accepting HTTP Socket connections' in log and 'Finished rebuilding storage' in log:
                     break
+                if advances >= 600:
+                    return 'squid is alive but not listening / not done rebuilding after 60 s of virtual time'
                 sq.advance(100, rounds=1)
+                advances += 1
             else:
                 sq._pump(0.05)
             if time.time() > deadline:
-                raise HarnessError('squid %s not ready after %ds (real time): %s' % (self.name, ready_s, sq.cache_log()[-1200:]))
+                st = ''
+                try:
+                    with open('/proc/%d/stat' % sq.proc.pid) as f:
+                        st = 'state ' + f.read().split(') ', 1)[1][:1]
+                    with open('/proc/%d/syscall' % sq.proc.pid) as f:
+                        st += ' syscall ' + ' '.join(f.read().split()[:2])
+                except OSError:
+                    pass
+                raise HarnessError('squid %s not ready after %ds of real time (%d clock advances, %d control connections, process %s): %s' % (
+                    self.name, ready_s, advances, len(sq.slots), st, sq.cache_log()[-400:]))
         for _ in range(3):
             sq.advance(50, rounds=1)
         if not sq.alive():
